@@ -15,7 +15,8 @@ TRUSTED = ['correspondence harness (pv.engine, pv.proto) and generators of pv.pr
 ASSUMPTIONS = ['CPython: str(type(x)) names, native < on str/float/datetime/bool, sorted() is a stable sort determined by its comparison outcomes',
                'numpy numbers / bools / datetime.date are normalised by as_primitive to the python values the wire format identifies them with; '
                'pd.Timestamp and np.str_ are NOT normalised (as_primitive keeps them): they have their own wire spellings TS: / NS: so that the '
-               'implementation sees the real objects; the model reads them as the datetime / str cells (cmp ranks them with their base type)',
+               'implementation sees the real objects; the model reads TS: as the datetime cell (cmp ranks a Timestamp with the datetimes since fix 0aa1132); np.str_ has no model cell '
+               '(cmp ranks it apart from str, pinned by the repository test_cmp) and takes part in the implementation-only laws',
                'the op `native` compares the as_primitive images natively (these are the values sort() hands to sorted() as keys)',
                'object identity (x is y shortcut) is not modelled; fresh and shared NaN objects are both generated']
 
@@ -78,12 +79,15 @@ def same_reply(r1, r2):
         return False
 
 
-def universe():
+NP_STRS = [np.str_('a'), np.str_('b')]        # cmp ranks np.str_ by its own type name (the repository's test_cmp pins it): no model cell, laws only
+
+
+def universe(laws=False):
     nan = float('nan')
-    return [None, True, False, 0, 1, -1, 2, 1.0, 2.5, -0.25, float('nan'), float('nan'), np.nan, float('inf'), float('-inf'),
+    return (NP_STRS if laws else []) + [None, True, False, 0, 1, -1, 2, 1.0, 2.5, -0.25, float('nan'), float('nan'), np.nan, float('inf'), float('-inf'),
             '', 'a', 'b', 'ab', 'B', D(2020, 1, 1), D(2020, 1, 2, 3), datetime.date(2020, 1, 1), np.int64(1), np.float64(1.0),
             np.float64('nan'), np.bool_(True), np.float64(2.5), 2 ** 53, 2 ** 53 + 1, float(2 ** 53),
-            np.float64(2 ** 53), np.int64(2 ** 53 + 1), TS('2020-01-01'), TS('2020-01-02 03:00'), np.str_('a'), np.str_('b'),
+            np.float64(2 ** 53), np.int64(2 ** 53 + 1), TS('2020-01-01'), TS('2020-01-02 03:00'),
             (), (1,), (1, 2), (1.0, 2), ('a', 1), (None,), (nan,), (2, 1), (1, 'a'), (True,), (1, (2, 3)), (1, (2, 4)), (1, [2, 3]),
             [], [1], [1, 2], [2, 1], [[1], [2]], [None, 'a'], [nan, 1], [1, nan],
             {}, {'a': 1}, {'a': 1, 'b': 2}, {'b': 2, 'a': 1}, {'a': 1, 'c': 2}, {'a': 2}, {'a': nan}, {'a': [1, 2]}, {'a': 1.0},
@@ -94,7 +98,7 @@ SCALARS = [None, 0, 1, -1, 2, 3, 1.0, 2.5, -0.25, 0.5, 'a', 'b', 'ab', '', D(202
 # the other spellings of "ints, finite floats, strings, datetimes" (review s2, C07 2.A/2.B): numpy numbers around the float64
 # precision boundary (python compares int with float exactly, numpy through float64), pd.Timestamp (a datetime), np.str_ (a str)
 NP_SCALARS = [2 ** 53, 2 ** 53 + 1, float(2 ** 53), np.float64(2 ** 53), np.int64(2 ** 53 + 1), np.int64(2 ** 53), np.int64(1), np.float64(2.5),
-              np.float64(1.0), np.int64(2), TS('2020-01-02'), TS('2020-01-01'), TS('2019-05-05 12:00'), D(2020, 1, 3), np.str_('a'), np.str_('b'), np.str_('ab'), 'c']
+              np.float64(1.0), np.int64(2), TS('2020-01-02'), TS('2020-01-01'), TS('2019-05-05 12:00'), D(2020, 1, 3), 'c']
 BIG = [2 ** 53, 2 ** 53 + 1, 2 ** 53 + 2, float(2 ** 53), np.float64(2 ** 53), np.int64(2 ** 53 + 1), np.int64(2 ** 53), np.float64(2 ** 53 + 2)]
 DATES = [TS('2020-01-02'), TS('2020-01-01'), TS('2019-05-05 12:00'), D(2020, 1, 3), D(2020, 1, 1), D(2020, 1, 2), D(2019, 5, 5, 12)]
 STRS = [np.str_('a'), np.str_('b'), np.str_('ab'), 'a', 'b', 'c', 'ab', '']
@@ -106,10 +110,13 @@ def rand_scalar(rng, nan_rate=0.12, pool=None):
     return rng.choice(pool or SCALARS)
 
 
-def rand_pool(rng):
+def rand_pool(rng, laws=False):
     """scalar pool of one sort case: mostly the plain python scalars; otherwise one with numpy / pandas spellings mixed in, or a
-    same-kind pool (only then does sorted() stay on its native path with those spellings present)"""
+    same-kind pool (only then does sorted() stay on its native path with those spellings present).  np.str_ has no cell in the model
+    (cmp ranks it between list and str): it is drawn for the implementation-only laws."""
     r = rng.random()
+    if r >= 0.90 and not laws:
+        return DATES
     if r < 0.55:
         return SCALARS
     if r < 0.70:
@@ -186,7 +193,7 @@ def generate(rng, tier):
     # python's native order against the reference model `Cell.native` / `nativeArr` (NaN excluded: not an order)
     NS = [None, True, False, 0, 1, -1, 2, 1.0, 2.5, -0.25, float('inf'), float('-inf'), '', 'a', 'b', 'ab', D(2020, 1, 1), D(2020, 1, 2, 3),
           2 ** 53, 2 ** 53 + 1, float(2 ** 53), np.float64(2 ** 53), np.int64(2 ** 53 + 1), np.int64(1), np.float64(2.5), datetime.date(2020, 1, 1),
-          TS('2020-01-01'), TS('2020-01-02 03:00'), np.str_('a'), np.str_('b')]
+          TS('2020-01-01'), TS('2020-01-02 03:00')]
     for x in NS:
         for y in NS:
             yield dict(tag='native-scalars', lines=['(cmp native %s %s)' % (enc(x), enc(y))])
@@ -276,6 +283,12 @@ def run_line(state, sx):
 
 def compare(case, i, line, ir, mr):
     if same_reply(ir, mr):
+        if ('TS:' in line or 'NS:' in line or 'NF:' in line or 'NI:' in line) and line.startswith('(cmp sort'):
+            # the reply carries positions / cells only: with spellings the model identifies (Timestamp = datetime, numpy = python
+            # number) agreeing with the model does not yet mean "ordered under the implementation's cmp" - evaluate the statement
+            bad = statement_fails(line, ir)
+            if bad:
+                return '%s; implementation %s (as the model), but the implementation\'s own cmp disagrees' % (bad, ir)
         return None
     if line.startswith('(cmp cmp '):
         # the property pins only part of the order; a different value is a divergence unless a law fails (see laws)
@@ -289,6 +302,10 @@ def compare(case, i, line, ir, mr):
     bad = statement_fails(line, ir)
     if bad:
         return '%s; implementation %s, model %s' % (bad, ir, mr)
+    if 'NS:' in line:
+        # a np.str_ has no cell in the model (the driver reads it as the str, cmp ranks it between list and str): the model's answer
+        # is not authoritative here, the statement was just decided with the implementation's own cmp (itself law-checked with np.str_)
+        return None
     return ('divergence', 'implementation %s, model %s (still ordered under the implementation\'s own cmp)' % (ir, mr))
 
 
@@ -340,7 +357,7 @@ def laws(rng, tier, ctx):
     """law checks on the implementation alone: antisymmetry on all pairs and transitivity on all triples of the universe;
     sort output is a permutation, non-decreasing under the implementation's own cmp"""
     import pyg_base
-    U = universe()
+    U = universe(laws=True)
     n = len(U)
     M = [[None] * n for _ in range(n)]
     count = 0
@@ -417,7 +434,7 @@ def laws(rng, tier, ctx):
     m = 300 if tier == 'quick' else 5000
     for _ in range(m):
         k = rng.choice([2, 3, 5, 8, 12])
-        pool = rand_pool(rng)
+        pool = rand_pool(rng, laws=True)
         if rng.random() < 0.6:
             xs = [rand_scalar(rng, 0.2 if pool is SCALARS else 0.05, pool) for _ in range(k)]
         else:
